@@ -294,6 +294,27 @@ def run_inverse(sx, cfg, env):
             sx.require(close(x, ref), "inverse-linear-formula")
     elif cat == "IDENTICAL":
         sx.require(x == y, "identity")
+    elif cat == "TAB-INTP":
+        pts = spec["points"]
+        i = None
+        for j in range(len(pts) - 1):
+            if s_or(s_and(pts[j][1] <= y, y <= pts[j + 1][1]),
+                    s_and(pts[j + 1][1] <= y, y <= pts[j][1])):
+                i = j
+                break
+        sx.require(i is not None, "interpolation-interval-exists")
+        (x0, y0), (x1, y1) = pts[i], pts[i + 1]
+        if to_int:
+            # x0 + (y - y0) * (x1 - x0) / (y1 - y0), rounded to nearest
+            dy = Fraction(y1) - Fraction(y0)
+            dx = Fraction(x1) - Fraction(x0)
+            const = (Fraction(x0) * dy - Fraction(y0) * dx) * yd
+            sx.require(isinstance(x, int), "integer-internal-type-yields-int")
+            sx.require(nearest_ok(x, [(const, 1), (dx, yn)], dy * yd, xs_bits=cfg["bits"] + 4),
+                       "inverse-interpolation-rounded-to-nearest")
+        else:
+            ref = x0 + (y - y0) * (x1 - x0) / (y1 - y0)
+            sx.require(close(x, ref), "inverse-interpolation-formula")
     elif cat == "SCALE-LINEAR":
         # the result must be a pre-image: converting it forward gives y again (integer types,
         # slopes of magnitude >= 1 or plateaus with an inverse value)
@@ -311,6 +332,32 @@ def run_inverse(sx, cfg, env):
                 sx.require(abs_le([(Fraction(O) * yd, 1), (Fraction(F) * yd, x), (-Fraction(D), yn)],
                                   smax / 2 * abs(Fraction(D)) * yd, xs_bits=cfg["bits"] + 4),
                            "inverse-result-is-a-nearest-pre-image")
+
+
+def run_texttable(sx, cfg, env):
+    """TEXTTABLE: every text encodes to its COMPU-INVERSE-VALUE (else the lower limit), which
+    decodes back to the same text; every valid internal value decodes to a text that encodes"""
+    from odxtools.exceptions import OdxError
+    cm = env["cm"]
+    spec = cfg["cm"]
+    sc = spec["scales"][cfg["scale"]]
+    text = sc["const"]
+    sx.require(bool(cm.is_valid_physical_value(text)), "text-of-a-scale-is-valid")
+    try:
+        x = cm.convert_physical_to_internal(text)
+    except OdxError:
+        sx.fail("text-of-a-scale-encodes")
+        return
+    lo = _lim(sc, "lo")
+    want = sc["inv"] if "inv" in sc else (lo[0] if lo else _lim(sc, "hi")[0])
+    sx.require(x == want, "text-encodes-to-inverse-value-or-lower-limit")
+    if "inv" in sc or (lo and lo[1] != "OPEN"):
+        sx.require(cm.convert_internal_to_physical(x) == text, "text-internal-text-is-identity")
+    # forward direction for an arbitrary internal value of this scale
+    v, _ = operand(sx, "x", cfg["it"], cfg["bits"])
+    if _seg_of(spec, v) == cfg["scale"]:
+        sx.cover("in-scale")
+        sx.require(cm.convert_internal_to_physical(v) == text, "text-of-the-first-applicable-scale")
 
 
 def run_roundtrip(sx, cfg, env):
@@ -369,6 +416,8 @@ HARNESSES = {
                 "must_cover": ["valid"]},
     "roundtrip": {"build": build_cm, "run": run_roundtrip, "width": 64, "limits": LIM,
                   "must_cover": ["valid", "require:internal-physical-internal-is-identity"]},
+    "texttable": {"build": build_cm, "run": run_texttable, "width": 64, "limits": LIM,
+                  "must_cover": ["in-scale", "require:text-encodes-to-inverse-value-or-lower-limit"]},
     "limit": {"build": lambda c: None, "run": run_limit, "width": 64, "limits": LIM,
               "must_cover": ["require:upper-limit-honours-interval-type"]},
 }
@@ -428,7 +477,7 @@ def methods(tier):
                   "scales": [{"lo": p[0], "const": p[1]} for p in pts]}
             out.append(("TAB-INTP", it_, pt_, cm, name))
     # RAT-FUNC
-    rats = {"lin": ([1, 2], [1], [-0.5, 0.5], [1]), "quad": ([0, 0, 1], [1], None, None),
+    rats = {"cent": ([0, 1], [100], [0, 100], [1]), "lin": ([1, 2], [1], [-0.5, 0.5], [1]), "quad": ([0, 0, 1], [1], None, None),
             "neg": ([-50, 1], [4], [50, 4], [1]), "negquad": ([-300, 0, 0.5], [1], None, None),
             "frac": ([1, 1], [4], [-1, 4], [1]), "recip": ([10], [1, 1], None, None)}
     for name, (num, den, inum, iden) in rats.items():
@@ -450,6 +499,11 @@ def methods(tier):
         {"lo": {"v": 10, "it": "OPEN"}, "hi": {"v": 20, "it": "OPEN"}, "const": "mid"},
         {"lo": 20, "hi": 20, "const": "edge"}, {"lo": 30, "const": "only"}]}
     out.append(("TEXTTABLE", "A_UINT32", "A_UNICODE2STRING", tt, "five"))
+    tt2 = {"cat": "TEXTTABLE", "scales": [
+        {"lo": -2, "hi": 2, "const": "neutral", "inv": 0}, {"lo": 3, "hi": 9, "const": "high", "inv": 5},
+        {"lo": {"v": -20, "it": "OPEN"}, "hi": {"v": -2, "it": "OPEN"}, "const": "low"},
+        {"lo": 10, "hi": 10, "const": "ten"}]}
+    out.append(("TEXTTABLE", "A_INT32", "A_UNICODE2STRING", tt2, "inverse-values"))
     out.append(("IDENTICAL", "A_INT32", "A_INT32", {"cat": "IDENTICAL"}, "id"))
     return out
 
@@ -470,6 +524,12 @@ def configs(tier, seed):
         out.append(dict(base, harness="forward", bits=b, id=f"forward/{cat}/{it_}-{pt_}/{name}"))
         if cat in ("LINEAR", "IDENTICAL"):
             out.append(dict(base, harness="inverse", bits=b, id=f"inverse/{cat}/{it_}-{pt_}/{name}"))
+        if cat == "TAB-INTP" and name in ("incr", "decr", "steep"):
+            out.append(dict(base, harness="inverse", bits=8, id=f"inverse/{cat}/{it_}-{pt_}/{name}"))
+        if cat == "TEXTTABLE":
+            for k in range(len(cm["scales"])):
+                out.append(dict(base, harness="texttable", bits=8, scale=k,
+                                id=f"texttable/{it_}/{name}/scale{k}"))
         vr = {"cont-incr": [-100, 150], "cont-decr": [-180, 100], "const": [-100, 90],
               "decr-plateau": [-100, 100], "plateau-then-decr": [-43, 7]}
         if cat == "SCALE-LINEAR" and name in vr and pt_ in INTS:
